@@ -1,6 +1,7 @@
 (* driver.ml -- unverified glue: reads one case per line, runs the extracted model,
    prints one canonical observation per line.  See harness/streams.py for the format. *)
 open Model
+type string = String.t   (* Model exports the Coq string type under this name; the driver only uses OCaml strings *)
 
 let rec nat_of_int n = if n <= 0 then O else S (nat_of_int (n - 1))
 let rec int_of_nat = function O -> 0 | S n -> 1 + int_of_nat n
@@ -322,6 +323,38 @@ let run_gm () =
   | Ok (st, root) -> print_endline (front_end_obs v fuel st root)
   | r -> print_endline ("parse=" ^ show_res (fun _ -> "") r)
 
+(* ---- JSON values: prefix tokens  n | t | f | i<int> | s<S..> | a<k> v.. | o<k> (S.. v).. ---- *)
+let rec pos_of_int n = if n <= 1 then XH else if n land 1 = 0 then XO (pos_of_int (n lsr 1)) else XI (pos_of_int (n lsr 1))
+let z_of_int n = if n = 0 then Z0 else if n > 0 then Zpos (pos_of_int n) else Zneg (pos_of_int (- n))
+let rec int_of_pos = function XH -> 1 | XO p -> 2 * int_of_pos p | XI p -> 2 * int_of_pos p + 1
+let int_of_z = function Z0 -> 0 | Zpos p -> int_of_pos p | Zneg p -> - (int_of_pos p)
+let rec read_json () =
+  let t = next_tok () in
+  match t.[0] with
+  | 'n' -> JNull | 't' -> JBool true | 'f' -> JBool false
+  | 'i' -> JNum (z_of_int (int_of_string (String.sub t 1 (String.length t - 1))))
+  | 's' -> JStr (str_of_tok (String.sub t 1 (String.length t - 1)))
+  | 'a' -> let k = int_of_string (String.sub t 1 (String.length t - 1)) in JArr (List.init k (fun _ -> read_json ()))
+  | 'o' -> let k = int_of_string (String.sub t 1 (String.length t - 1)) in
+           JObj (List.init k (fun _ -> let key = next_str () in (key, read_json ())))
+  | _ -> failwith ("json " ^ t)
+let rec show_json = function
+  | JNull -> "n" | JBool true -> "t" | JBool false -> "f"
+  | JNum z -> "i" ^ string_of_int (int_of_z z)
+  | JStr s -> "s" ^ tok_of_str s
+  | JArr l -> String.concat " " (("a" ^ string_of_int (List.length l)) :: List.map show_json l)
+  | JObj d -> String.concat " " (("o" ^ string_of_int (List.length d)) :: List.map (fun (k, v) -> tok_of_str k ^ " " ^ show_json v) d)
+
+(* stream N: normalize *)
+let run_n () =
+  let sv = (next () <> 0) in
+  let fm = (next () <> 0) in
+  let dd = (next () <> 0) in
+  let fuel = next_nat () in
+  let s = read_json () in
+  let cfg = { full_merge = fm; discard_fields = default_discard; detect_dup = dd } in
+  print_endline ("norm=" ^ show_res show_json (normalize sv cfg fuel s))
+
 (* stream O: SampleCache histories *)
 let ecls_of_code = function
   | 0 -> EResolveReference | 1 -> EInternal | 2 -> ENormalization | 3 -> EJsonPointer
@@ -396,6 +429,7 @@ let () =
            | "R" -> run_r ()
            | "RS" -> run_rs ()
            | "GM" -> run_gm ()
+           | "N" -> run_n ()
            | "F" -> run_f ()
            | "O" -> run_o ()
            | t -> print_endline ("error=unknown-stream:" ^ t)
